@@ -281,6 +281,17 @@ def _gen_core(rng, tier):
         rows = rand_alignment(rng)
         o = rand_options(rng, rows)
         yield mk("distmatrix", *o, rows, "random-" + o[0])
+    # one model object, two alignments (as `compute distance` on a file with several alignments, `distboot` on its
+    # replicates): the second answer must not depend on the first alignment - same shape, other composition / gap pattern
+    for _ in range(N // 4):
+        rows = rand_alignment(rng, small=rng.random() < 0.5)
+        o = rand_options(rng, rows, rng.choice(["f81", "f84", "tn93", "k2p", "jc", "pdist"]))
+        c = mk("distmatrix", *o, rows, "reuse-" + o[0])
+        L = len(rows[0])
+        comp = rng.choice(["AAAC", "ACGT", "GGGC", "TTTA", "AC"])
+        warm = ["".join(rng.choice(comp + ("-" if rng.random() < 0.3 else "")) for _ in range(L)) for _ in rows]
+        c.args.append(rows_str(warm))
+        yield c
     # tiny alignments: every pair of columns matters (minimal witnesses live here)
     for _ in range(N // 3):
         rows = rand_alignment(rng, small=True)
